@@ -41,11 +41,18 @@ IrisOf(x) ==
     [] OTHER -> {}
 IrisOfMap(p) == UNION {IrisOf(p[t]) : t \in DOMAIN p}
 
-\* first-occurrence sequence of a list (duplicates are not part of the demand)
+\* first-occurrence sequence of a list (duplicates are not part of the demand).  Identity of an entry = its IRI / id up to
+\* IRI equivalence ignoring scheme; the equivalent presentations used by the cases are tabulated in IdKey.
+IdKey(s) == CASE s = "http://example.com/Object/31" -> "https://example.com/Object/31" [] OTHER -> s
+KeyOf(x) == IF x.k = "iri" THEN [k |-> "id", s |-> IdKey(x.iri)]
+            ELSE IF x.k = "obj" /\ "id" \in DOMAIN x.p THEN [k |-> "id", s |-> IdKey(x.p.id.s), emb |-> TRUE]
+            ELSE x
+SameWho(a, b) == (a.k = "id" /\ b.k = "id" /\ a.s = b.s) \/ a = b
 RECURSIVE Dedup(_, _, _)
 Dedup(s, i, acc) == IF i > Len(s) THEN acc
-                    ELSE IF \E k \in 1..Len(acc) : acc[k] = s[i] THEN Dedup(s, i + 1, acc) ELSE Dedup(s, i + 1, Append(acc, s[i]))
+                    ELSE IF \E k \in 1..Len(acc) : SameWho(KeyOf(acc[k]), KeyOf(s[i])) THEN Dedup(s, i + 1, acc) ELSE Dedup(s, i + 1, Append(acc, s[i]))
 FirstOcc(l) == Dedup(l.e, 1, <<>>)
+SameSeqUpToIri(a, b) == Len(a) = Len(b) /\ \A i \in 1..Len(a) : a[i] = b[i] \/ (a[i].k = "iri" /\ b[i].k = "iri" /\ IdKey(a[i].iri) = IdKey(b[i].iri))
 
 \* ---- the relation -----------------------------------------------------------
 TermWhy(g, pre, post, t) ==
@@ -57,7 +64,7 @@ TermWhy(g, pre, post, t) ==
          ELSE (IF IrisOf(post[t]) \subseteq IrisOf(pre[t]) THEN {} ELSE {"invented-iri"})
   ELSE IF t \in FlatLists THEN
          IF post[t].k # "list" THEN {"not-a-list"}
-         ELSE IF FirstOcc(post[t]) = FirstOcc(ListOf([i \in 1..Len(pre[t].e) |-> FlatEntry(pre[t].e[i])])) THEN {} ELSE {"addressees-changed"}
+         ELSE IF SameSeqUpToIri(FirstOcc(post[t]), FirstOcc(ListOf([i \in 1..Len(pre[t].e) |-> FlatEntry(pre[t].e[i])]))) THEN {} ELSE {"addressees-changed"}
   ELSE IF post[t] = pre[t] THEN {} ELSE {"frame"}
 
 FlattenWhy(pre, post) ==
